@@ -37,6 +37,8 @@ CONSTANTS FrontEnd,      \* "v2" | "legacy"
           UserPrefixes,  \* prefixes user calls may name
           UserVerbs,     \* verbs user calls may use (subset of Verbs)
           Routes,        \* sequence of prefixes declared with route() before connecting
+          LateRoutes,    \* set of prefixes that may be declared with route() WHILE connected (disjoint from the others)
+          Stall,         \* TRUE: 1 ms of loop time may pass with the wall clock standing still (Wake with adv = 0)
           MaxConn,       \* number of Connect steps allowed
           MaxClock,
           ReplyKinds,    \* subset of AllReplyKinds
@@ -46,7 +48,8 @@ CONSTANTS FrontEnd,      \* "v2" | "legacy"
 AllReplyKinds == {"r200", "r400", "r403", "r503", "nack", "silence", "garbage", "vfail"}
 StatusKinds   == {"r200", "r400", "r403", "r503"}
 DataKinds     == StatusKinds \cup {"garbage"}
-AllDevs == {"UnregAnyData", "RegRaisesNoBody", "RegRaisesGarbage", "V2TwoReads",
+GiveUp == 10    \* NfdRegister: `for _ in range(10)` around the guard
+AllDevs == {"UnregAnyData", "RegRaisesNoBody", "RegRaisesGarbage", "V2TwoReads", "V2GuardGivesUp",
             "LegacyNoGuard", "LegacyUnregNoSem", "LegacyUnregKeyError"}
 
 \* values for Routes (a cfg file cannot spell a sequence): Routes <- R0 | R1 | R2
@@ -67,7 +70,9 @@ VARIABLES clock,    \* wall clock (ms)
                     \* user calls the ids from 1 upwards (the harness sees the results of user calls only)
           pc,       \* per call: idle|start|wantSem|waitingSem|acquired|guardOk|guardFail|sleeping|woken|sent|replied|done
           vb, pf, wf,  \* per call: verb, prefix, legacy register called with a handler function
-          g,        \* per call: clock value read by the guard
+          g,        \* per call: clock value read by the guard (last reading, passed or not)
+          tries,    \* per call: guard readings that did not pass
+          late,     \* routes declared while connected, in order: [r, e (connection epoch of the declaration)]
           sem,      \* holder of the command semaphore, 0 = free
           semQ,     \* FIFO of calls waiting for it
           lastTs,   \* _last_command_timestamp
@@ -81,7 +86,7 @@ VARIABLES clock,    \* wall clock (ms)
           nodev,    \* deviations the code was seen not to have
           bad       \* property clauses violated so far (history variable)
 
-vars == <<clock, pend, up, conn, autoQ, autoCall, nauto, pc, vb, pf, wf, g, sem, semQ, lastTs, cmds,
+vars == <<clock, pend, up, conn, autoQ, autoCall, nauto, pc, vb, pf, wf, g, tries, late, sem, semQ, lastTs, cmds,
           replies, fin, result, filt, running, dev, nodev, bad>>
 
 NoReply == [k |-> "none", body |-> FALSE]
@@ -99,7 +104,7 @@ Init ==
   /\ clock = 0 /\ pend = 0 /\ up = FALSE /\ conn = 0 /\ autoQ = <<>> /\ autoCall = 0 /\ nauto = 0
   /\ pc = [c \in Calls |-> "idle"]
   /\ vb = [c \in Calls |-> "register"] /\ pf = [c \in Calls |-> "none"] /\ wf = [c \in Calls |-> FALSE]
-  /\ g = [c \in Calls |-> 0]
+  /\ g = [c \in Calls |-> 0] /\ tries = [c \in Calls |-> 0] /\ late = <<>>
   /\ sem = 0 /\ semQ = <<>> /\ lastTs = 0 - 1
   /\ cmds = <<>>
   /\ replies = [c \in Calls |-> NoReply] /\ fin = [c |-> 0, k |-> "none", body |-> FALSE]
@@ -112,6 +117,11 @@ WakeSemEnabled == running = 0 /\ sem = 0 /\ semQ # <<>>
 AutoNextEnabled == running = 0 /\ up /\ autoCall = 0 /\ autoQ # <<>> /\ Idle # {}
 EndRunEnabled == running = 0 /\ ~WakeSemEnabled /\ ~AutoNextEnabled /\ pend > 0
 Quiescent == running = 0 /\ ~WakeSemEnabled /\ ~AutoNextEnabled /\ pend = 0
+\* routes the starting task registers on a new connection: those declared before connecting, then those declared later
+AllRoutes == Routes \o [i \in 1..Len(late) |-> late[i].r]
+Undeclared == {r \in LateRoutes : \A i \in 1..Len(late) : late[i].r # r}
+\* call ids still needed by auto-registrations: of this connection, of later connections, of routes not yet declared
+IdsReserved == Len(autoQ) + Len(AllRoutes) * (MaxConn - conn) + Cardinality(Undeclared) * (MaxConn - conn + 1)
 
 -----------------------------------------------------------------------------
 (* Properties of C17 as state predicates *)
@@ -131,9 +141,13 @@ ExactlyOneCommand ==
 RegCount(e, r) == Cardinality({i \in 1..Len(cmds) : cmds[i].conn = e /\ cmds[i].verb = "register" /\ cmds[i].prefix = r})
 AutoDone(e) == e < conn \/ (e = conn /\ autoQ = <<>> /\ autoCall = 0)
 RoutesOncePerConnection ==
-  \A e \in 1..conn : \A r \in Range(Routes) :
-    /\ RegCount(e, r) <= 1
-    /\ (AutoDone(e) /\ Quiescent) => RegCount(e, r) = 1
+  /\ \A e \in 1..conn : \A r \in Range(Routes) :
+       /\ RegCount(e, r) <= 1
+       /\ (AutoDone(e) /\ Quiescent) => RegCount(e, r) = 1
+  \* a route declared while connected is, for every LATER connection, a route declared before connecting
+  /\ \A i \in 1..Len(late) : \A e \in (late[i].e + 1)..conn :
+       /\ RegCount(e, late[i].r) <= 1
+       /\ (AutoDone(e) /\ Quiescent) => RegCount(e, late[i].r) = 1
 \* no waiter is left behind when the semaphore is free and nothing runs
 NoStrandedWaiter == Quiescent => ~(sem = 0 /\ semQ # <<>>)
 SemHolderOk == sem # 0 => pc[sem] \in {"acquired", "guardOk", "guardFail", "sleeping", "woken", "sent", "replied"}
@@ -153,29 +167,30 @@ Track == bad' = bad \cup BadNow'
 \* the application calls app.register(p) / app.unregister(p); d: see pend
 Call(c, v, p, w, d) ==
   /\ Quiescent /\ up /\ clock + d <= MaxClock
-  /\ Cardinality(Idle) > Len(autoQ) + Len(Routes) * (MaxConn - conn)   \* bound: ids are kept for the auto-registrations still to come
+  /\ Cardinality(Idle) > IdsReserved                          \* bound: ids are kept for the auto-registrations still to come
   /\ c = NextId
   /\ v \in UserVerbs /\ p \in UserPrefixes
   /\ (w => (Legacy /\ v = "register" /\ p \notin filt))   \* a duplicate handler raises the documented ValueError: not generated
   /\ pc' = [pc EXCEPT ![c] = "start"]
   /\ vb' = [vb EXCEPT ![c] = v] /\ pf' = [pf EXCEPT ![c] = p] /\ wf' = [wf EXCEPT ![c] = w]
   /\ running' = c /\ pend' = d
-  /\ UNCHANGED <<clock, up, conn, autoQ, autoCall, nauto, g, sem, semQ, lastTs, cmds, replies, fin, result, filt, dev, nodev>>
+  /\ UNCHANGED <<clock, up, conn, autoQ, autoCall, nauto, g, tries, late, sem, semQ, lastTs, cmds, replies, fin, result, filt, dev, nodev>>
   /\ Track
 
 Tick ==
   /\ Quiescent /\ clock < MaxClock
   /\ clock' = clock + 1
-  /\ UNCHANGED <<pend, up, conn, autoQ, autoCall, nauto, pc, vb, pf, wf, g, sem, semQ, lastTs, cmds, replies, fin, result, filt, running, dev, nodev>>
+  /\ UNCHANGED <<pend, up, conn, autoQ, autoCall, nauto, pc, vb, pf, wf, g, tries, late, sem, semQ, lastTs, cmds, replies, fin, result, filt, running, dev, nodev>>
   /\ Track
 
 \* 1 ms passes on the loop clock (and so on the wall clock): the call sleeping in the guard loop resumes
-Wake(c, d) ==
-  /\ Quiescent /\ pc[c] = "sleeping" /\ clock + 1 + d <= MaxClock
-  /\ clock' = clock + 1
+Wake(c, d, adv) ==
+  /\ Quiescent /\ pc[c] = "sleeping" /\ clock + adv + d <= MaxClock
+  /\ adv \in 0..1 /\ (adv = 0 => Stall)
+  /\ clock' = clock + adv
   /\ pc' = [pc EXCEPT ![c] = "woken"]
   /\ running' = c /\ pend' = d
-  /\ UNCHANGED <<up, conn, autoQ, autoCall, nauto, vb, pf, wf, g, sem, semQ, lastTs, cmds, replies, fin, result, filt, dev, nodev>>
+  /\ UNCHANGED <<up, conn, autoQ, autoCall, nauto, vb, pf, wf, g, tries, late, sem, semQ, lastTs, cmds, replies, fin, result, filt, dev, nodev>>
   /\ Track
 
 \* the forwarder answers the outstanding command of call c (or stays silent until its lifetime ends)
@@ -188,16 +203,33 @@ FwdReply(c, k, b, d) ==
   /\ replies' = [replies EXCEPT ![c] = [k |-> k, body |-> b]]
   /\ pc' = [pc EXCEPT ![c] = "replied"]
   /\ running' = c /\ pend' = d
-  /\ UNCHANGED <<up, conn, autoQ, autoCall, nauto, vb, pf, wf, g, sem, semQ, lastTs, cmds, fin, result, filt, dev, nodev>>
+  /\ UNCHANGED <<up, conn, autoQ, autoCall, nauto, vb, pf, wf, g, tries, late, sem, semQ, lastTs, cmds, fin, result, filt, dev, nodev>>
+  /\ Track
+
+\* @app.route(r) while connected: the route is remembered for later connections and registered now (a task of its own,
+\* the caller does not see its result: it uses an id from the top like the auto-registrations)
+DeclareRoute(r, d) ==
+  /\ Quiescent /\ up /\ r \in Undeclared /\ clock + d <= MaxClock /\ Cardinality(Idle) > IdsReserved
+  /\ late' = Append(late, [r |-> r, e |-> conn])
+  \* the starting task iterates over the list of routes itself: while it is still at work it picks the new route up too
+  \* (so the route may be registered twice on the connection it is declared on - the statement is about routes
+  \* declared BEFORE connecting and does not decide this; the model follows the code)
+  /\ autoQ' = IF autoCall # 0 \/ autoQ # <<>> THEN Append(autoQ, r) ELSE autoQ
+  /\ LET c == TopId IN
+       /\ pc' = [pc EXCEPT ![c] = "start"]
+       /\ vb' = [vb EXCEPT ![c] = "register"] /\ pf' = [pf EXCEPT ![c] = r] /\ wf' = [wf EXCEPT ![c] = Legacy]
+       /\ running' = c
+  /\ nauto' = nauto + 1 /\ pend' = d
+  /\ UNCHANGED <<clock, up, conn, autoCall, g, tries, sem, semQ, lastTs, cmds, replies, fin, result, filt, dev, nodev>>
   /\ Track
 
 \* main_loop: face opened, the starting task registers the declared routes one after the other
 Connect(d) ==
   /\ Quiescent /\ ~up /\ conn < MaxConn /\ clock + d <= MaxClock
-  /\ Cardinality(Idle) >= Len(Routes)
-  /\ up' = TRUE /\ conn' = conn + 1 /\ autoQ' = Routes /\ pend' = d
+  /\ Cardinality(Idle) >= Len(AllRoutes)
+  /\ up' = TRUE /\ conn' = conn + 1 /\ autoQ' = AllRoutes /\ pend' = d
   /\ (IF Legacy THEN sem' = 0 /\ semQ' = <<>> ELSE UNCHANGED <<sem, semQ>>)   \* legacy main_loop makes a new semaphore
-  /\ UNCHANGED <<clock, autoCall, nauto, pc, vb, pf, wf, g, lastTs, cmds, replies, fin, result, filt, running, dev, nodev>>
+  /\ UNCHANGED <<clock, autoCall, nauto, pc, vb, pf, wf, g, tries, late, lastTs, cmds, replies, fin, result, filt, running, dev, nodev>>
   /\ Track
 
 \* the face goes down; bound: only with no call in progress
@@ -206,7 +238,7 @@ Disconnect ==
   /\ \A c \in Calls : pc[c] \in {"idle", "done"}
   /\ up' = FALSE
   /\ filt' = {}                                             \* legacy _clean_up clears the handler table
-  /\ UNCHANGED <<clock, pend, conn, autoQ, autoCall, nauto, pc, vb, pf, wf, g, sem, semQ, lastTs, cmds, replies, fin, result, running, dev, nodev>>
+  /\ UNCHANGED <<clock, pend, conn, autoQ, autoCall, nauto, pc, vb, pf, wf, g, tries, late, sem, semQ, lastTs, cmds, replies, fin, result, running, dev, nodev>>
   /\ Track
 
 -----------------------------------------------------------------------------
@@ -221,7 +253,7 @@ AutoNext ==
        /\ wf' = [wf EXCEPT ![c] = Legacy]
        /\ autoCall' = c /\ running' = c
   /\ autoQ' = Tail(autoQ) /\ nauto' = nauto + 1
-  /\ UNCHANGED <<clock, pend, up, conn, g, sem, semQ, lastTs, cmds, replies, fin, result, filt, dev, nodev>>
+  /\ UNCHANGED <<clock, pend, up, conn, g, tries, late, sem, semQ, lastTs, cmds, replies, fin, result, filt, dev, nodev>>
   /\ Track
 
 \* A deviation point. app = "defect d would show here". The code either has a defect or not, so the
@@ -246,7 +278,7 @@ Begin(c) ==
         /\ pc' = [pc EXCEPT ![c] = "done"]
         /\ running' = 0
         /\ UNCHANGED filt
-  /\ UNCHANGED <<clock, pend, up, conn, autoQ, autoCall, nauto, vb, pf, wf, g, sem, semQ, lastTs, cmds, replies, fin>>
+  /\ UNCHANGED <<clock, pend, up, conn, autoQ, autoCall, nauto, vb, pf, wf, g, tries, late, sem, semQ, lastTs, cmds, replies, fin>>
   /\ Track
 
 \* `async with self._prefix_register_semaphore` (asyncio.Semaphore is FIFO-fair)
@@ -265,39 +297,47 @@ Acquire(c) ==
         /\ Dev("LegacyUnregNoSem", app)
         /\ pc' = [pc EXCEPT ![c] = "acquired"]
         /\ UNCHANGED <<sem, semQ, running>>
-  /\ UNCHANGED <<clock, pend, up, conn, autoQ, autoCall, nauto, vb, pf, wf, g, lastTs, cmds, replies, fin, result, filt>>
+  /\ UNCHANGED <<clock, pend, up, conn, autoQ, autoCall, nauto, vb, pf, wf, g, tries, late, lastTs, cmds, replies, fin, result, filt>>
   /\ Track
 
 \* the semaphore was released: its first waiter resumes
 AcquireWake(c) ==
   /\ WakeSemEnabled /\ c = Head(semQ) /\ pc[c] = "waitingSem"
   /\ sem' = c /\ semQ' = Tail(semQ) /\ pc' = [pc EXCEPT ![c] = "acquired"] /\ running' = c
-  /\ UNCHANGED <<clock, pend, up, conn, autoQ, autoCall, nauto, vb, pf, wf, g, lastTs, cmds, replies, fin, result, filt, dev, nodev>>
+  /\ UNCHANGED <<clock, pend, up, conn, autoQ, autoCall, nauto, vb, pf, wf, g, tries, late, lastTs, cmds, replies, fin, result, filt, dev, nodev>>
   /\ Track
 
 \* guard: now = timestamp(); proceed only if now > _last_command_timestamp
 ReadClock(c) ==
   /\ running = c /\ pc[c] \in {"acquired", "woken"}
-  /\ LET app == Legacy /\ clock <= lastTs IN
-     \/ /\ NoDev("LegacyNoGuard", app)
+  /\ LET app == Legacy /\ clock <= lastTs
+         gaveUp == ~Legacy /\ tries[c] >= GiveUp IN
+     \/ /\ NoDev("LegacyNoGuard", app) /\ ~(gaveUp /\ ("V2GuardGivesUp" \in dev \/ "V2GuardGivesUp" \in Forced))
         /\ clock > lastTs
         /\ lastTs' = clock /\ g' = [g EXCEPT ![c] = clock] /\ pc' = [pc EXCEPT ![c] = "guardOk"]
-     \/ /\ NoDev("LegacyNoGuard", app)
+        /\ UNCHANGED tries
+     \/ /\ NoDev("LegacyNoGuard", app) /\ ~(gaveUp /\ ("V2GuardGivesUp" \in dev \/ "V2GuardGivesUp" \in Forced))
         /\ clock <= lastTs
         /\ pc' = [pc EXCEPT ![c] = "guardFail"]
-        /\ UNCHANGED <<lastTs, g>>
+        /\ g' = [g EXCEPT ![c] = clock] /\ tries' = [tries EXCEPT ![c] = @ + 1]
+        /\ UNCHANGED lastTs
      \/ \* DEVIATION: the legacy front-end has no guard; the timestamp is whatever the clock shows
         /\ Dev("LegacyNoGuard", app)
         /\ g' = [g EXCEPT ![c] = clock] /\ pc' = [pc EXCEPT ![c] = "guardOk"]
-        /\ UNCHANGED lastTs
-  /\ UNCHANGED <<clock, pend, up, conn, autoQ, autoCall, nauto, vb, pf, wf, sem, semQ, cmds, replies, fin, result, filt, running>>
+        /\ UNCHANGED <<lastTs, tries>>
+     \/ \* DEVIATION: NfdRegister stops guarding after GiveUp readings: it does not read the clock again and sends the
+        \* command with its last (not larger) reading
+        /\ Dev("V2GuardGivesUp", gaveUp)
+        /\ pc' = [pc EXCEPT ![c] = "guardOk"]
+        /\ UNCHANGED <<lastTs, g, tries>>
+  /\ UNCHANGED <<clock, pend, up, conn, autoQ, autoCall, nauto, vb, pf, wf, late, sem, semQ, cmds, replies, fin, result, filt, running>>
   /\ Track
 
 \* await asyncio.sleep(0.001)
 Sleep(c) ==
   /\ running = c /\ pc[c] = "guardFail"
   /\ pc' = [pc EXCEPT ![c] = "sleeping"] /\ running' = 0
-  /\ UNCHANGED <<clock, pend, up, conn, autoQ, autoCall, nauto, vb, pf, wf, g, sem, semQ, lastTs, cmds, replies, fin, result, filt, dev, nodev>>
+  /\ UNCHANGED <<clock, pend, up, conn, autoQ, autoCall, nauto, vb, pf, wf, g, tries, late, sem, semQ, lastTs, cmds, replies, fin, result, filt, dev, nodev>>
   /\ Track
 
 \* build, sign and send the command Interest; the pending tick (if any) falls before the signer runs
@@ -312,7 +352,7 @@ Send(c) ==
         /\ Dev("V2TwoReads", app)
         /\ cmds' = Append(cmds, cmd(clock'))
   /\ pc' = [pc EXCEPT ![c] = "sent"] /\ running' = 0
-  /\ UNCHANGED <<up, conn, autoQ, autoCall, nauto, vb, pf, wf, g, sem, semQ, lastTs, replies, fin, result, filt>>
+  /\ UNCHANGED <<up, conn, autoQ, autoCall, nauto, vb, pf, wf, g, tries, late, sem, semQ, lastTs, replies, fin, result, filt>>
   /\ Track
 
 \* the awaited express returns or raises; the result is computed; the semaphore is released
@@ -342,20 +382,21 @@ Finish(c) ==
   /\ running' = 0
   /\ fin' = [c |-> c, k |-> replies[c].k, body |-> replies[c].body]
   /\ replies' = [replies EXCEPT ![c] = NoReply]
-  /\ UNCHANGED <<clock, pend, up, conn, nauto, vb, pf, wf, g, semQ, lastTs, cmds, filt>>
+  /\ UNCHANGED <<clock, pend, up, conn, nauto, vb, pf, wf, g, tries, late, semQ, lastTs, cmds, filt>>
   /\ Track
 
 \* no second clock read happened in this run: the pending tick simply elapses
 EndRun ==
   /\ EndRunEnabled
   /\ clock' = clock + pend /\ pend' = 0
-  /\ UNCHANGED <<up, conn, autoQ, autoCall, nauto, pc, vb, pf, wf, g, sem, semQ, lastTs, cmds, replies, fin, result, filt, running, dev, nodev>>
+  /\ UNCHANGED <<up, conn, autoQ, autoCall, nauto, pc, vb, pf, wf, g, tries, late, sem, semQ, lastTs, cmds, replies, fin, result, filt, running, dev, nodev>>
   /\ Track
 
 -----------------------------------------------------------------------------
 Env == \/ \E c \in Calls, v \in UserVerbs, p \in UserPrefixes, w \in BOOLEAN, d \in 0..1 : Call(c, v, p, w, d)
        \/ Tick
-       \/ \E c \in Calls, d \in 0..1 : Wake(c, d)
+       \/ \E c \in Calls, d \in 0..1, adv \in 0..1 : Wake(c, d, adv)
+       \/ \E r \in LateRoutes, d \in 0..1 : DeclareRoute(r, d)
        \/ \E c \in Calls, k \in ReplyKinds, b \in BOOLEAN, d \in 0..1 : FwdReply(c, k, b, d)
        \/ \E d \in 0..1 : Connect(d)
        \/ Disconnect
